@@ -285,7 +285,7 @@ class Tracer:
 
             def test():
                 if s.get('c') is None:
-                    return None
+                    return 1        # `for (init; ; inc)`: left only by a break
                 self.fx = True
                 try:
                     return self.val(s['c'])
